@@ -221,6 +221,11 @@ func init() {
 			if !ok2 {
 				return Tuple{x.bytesSlice(nil), x.newErrS("encoding/hex: invalid byte", "")}
 			}
+			if hi.op == OpZext && lo.op == OpZext && hi.a.op == OpExtract && lo.a.op == OpExtract && hi.a.a == lo.a.a &&
+				hi.a.k == (7<<8|4) && lo.a.k == (3<<8|0) && hi.a.a.w == 8 {
+				out = append(out, hi.a.a) // decode(encode(b)) = b
+				continue
+			}
 			out = append(out, st.Bin(OpBOr, st.Bin(OpShl, st.Zext(hi, 8), st.Const(8, 4)), st.Zext(lo, 8)))
 		}
 		if len(s.b)%2 == 1 {
@@ -275,12 +280,20 @@ func (x *Exec) hexDigit(n *Term) *Term {
 	if n8.op == OpConst {
 		return st.Const(8, uint64("0123456789abcdef"[n8.k]))
 	}
-	return st.Ite(st.Cmp(OpUlt, n8, st.Const(8, 10)), st.Bin(OpAdd, n8, st.Const(8, '0')), st.Bin(OpAdd, n8, st.Const(8, 'a'-10)))
+	r := st.Ite(st.Cmp(OpUlt, n8, st.Const(8, 10)), st.Bin(OpAdd, n8, st.Const(8, '0')), st.Bin(OpAdd, n8, st.Const(8, 'a'-10)))
+	if x.hexOf == nil {
+		x.hexOf = map[*Term]*Term{}
+	}
+	x.hexOf[r] = n // provenance: r is the lower-case hex digit of the 4-bit term n
+	return r
 }
 
 // unhex returns the 4-bit value (as 8-bit term) of a hex digit char, forking on validity.
 func (x *Exec) unhex(c *Term) (*Term, bool) {
 	st := x.c.st
+	if n, ok := x.hexOf[c]; ok {
+		return st.Zext(n, 8), true
+	}
 	isDig := st.And(st.Cmp(OpUle, st.Const(8, '0'), c), st.Cmp(OpUle, c, st.Const(8, '9')))
 	isLow := st.And(st.Cmp(OpUle, st.Const(8, 'a'), c), st.Cmp(OpUle, c, st.Const(8, 'f')))
 	isUp := st.And(st.Cmp(OpUle, st.Const(8, 'A'), c), st.Cmp(OpUle, c, st.Const(8, 'F')))
